@@ -2,6 +2,8 @@ package dct
 
 import (
 	"fmt"
+	"sort"
+	"sync"
 
 	"github.com/cocosip/go-dicom-codecs/jpeg/baseline"
 	"github.com/cocosip/go-dicom-codecs/jpeg/extended"
@@ -58,7 +60,7 @@ func c11Cases(c *Ctx) []c11Case {
 		cases = append(cases, c11Case{cc.codec, w, h, cc.comps, q, content, rng.U64()})
 	}
 	// (1) every quality 1..100, every codec/component combination, rotating content and size
-	rep := c.N(1, 4)
+	rep := c.N(3, 10)
 	for r := 0; r < rep; r++ {
 		for q := 1; q <= 100; q++ {
 			for ci := range c11Codecs {
@@ -74,14 +76,15 @@ func c11Cases(c *Ctx) []c11Case {
 			if !c.Thor && rng.Intn(3) != 0 {
 				continue
 			}
+			for ci := range c11Codecs {
+				add(ci, w, h, rng.Range(1, 100), "")
+			}
 			if c.Thor {
 				for ci := range c11Codecs {
-					add(ci, w, h, rng.Range(1, 100), "")
+					add(ci, w, h, []int{100, 1, 99, 50, 75}[(rot+ci)%5], "")
 				}
-			} else {
-				add(rot, w, h, rng.Range(1, 100), "")
-				rot++
 			}
+			rot++
 		}
 	}
 	// (3) the named boundary contents at quality 100 / 1 / 50 for every codec
@@ -105,12 +108,40 @@ func c11Cases(c *Ctx) []c11Case {
 	return cases
 }
 
+// allowance actually consumed: max over all samples of |dec-src| - (table term of the bound),
+// per codec class; reported as a note (evidence for the kernel-deviation hypotheses of
+// C11_grey_bound_partial, not an oracle).
+var c11Mu sync.Mutex
+var c11Used = map[string]float64{}
+
+func c11NoteUsed(class string, v float64) {
+	c11Mu.Lock()
+	if old, ok := c11Used[class]; !ok || v > old {
+		c11Used[class] = v
+	}
+	c11Mu.Unlock()
+}
+
 func runC11(c *Ctx) {
 	c.R.Rule = "C11: image = (codec in baseline/ext8/ext12, w, h, comps, quality, content class, seed); every quality 1..100 for every codec; " +
 		"sizes 1..33 x 1..33 (quick: seeded third) plus up to 512; contents noise/Nyquist checkerboards/extremes/ramps/constant; " +
 		"non-trivial = not a constant image or quality<100 (i.e. quantisation or AC content present)"
+	if replayCases(c) {
+		return
+	}
 	cases := c11Cases(c)
+	c11Mu.Lock()
+	c11Used = map[string]float64{}
+	c11Mu.Unlock()
 	ParallelFor(len(cases), c.Work, func(i int) { c11One(c, cases[i], i < 3) })
+	var ks []string
+	for k := range c11Used {
+		ks = append(ks, k)
+	}
+	sort.Strings(ks)
+	for _, k := range ks {
+		c.R.Note("c11: allowance consumed (max of |dec-src| minus the table term) %s = %.3f", k, c11Used[k])
+	}
 	runDctCorr(c, "C11")
 }
 
@@ -205,6 +236,10 @@ func c11One(c *Ctx, k c11Case, sample bool) {
 		}
 	}
 	worst, worstAt, worstC := 0, -1, 0
+	allow, used := 2.0, -1e9
+	if k.Comps == 3 {
+		allow = 5
+	}
 	n := k.W * k.H
 	for p := 0; p < n; p++ {
 		for ch := 0; ch < k.Comps; ch++ {
@@ -216,11 +251,15 @@ func c11One(c *Ctx, k c11Case, sample bool) {
 				s, d = int(px[p*k.Comps+ch]), int(dec[p*k.Comps+ch])
 			}
 			e := absi(s - d)
+			if ex := float64(e) - (bound[ch] - allow); ex > used {
+				used = ex
+			}
 			if float64(e) > bound[ch]+1e-9 && (worstAt < 0 || float64(e)-bound[ch] > float64(worst)-bound[worstC]) {
 				worst, worstAt, worstC = e, p, ch
 			}
 		}
 	}
+	c11NoteUsed(fmt.Sprintf("%s/comps=%d (of %.0f)", k.Codec, k.Comps, allow), used)
 	if worstAt >= 0 {
 		c.R.Fail("oracle", "c11_bound", fmt.Sprintf("%s:%s:comps=%d:bound", cc, qClass(k.Q), k.Comps),
 			fmt.Sprintf("q=%d sample (x=%d,y=%d,ch=%d) differs by %d > bound %.3f (table bounds %.3f %.3f %.3f)", k.Q, worstAt%k.W, worstAt/k.W, worstC, worst, bound[worstC], bq[0], bq[1], bq[2]), in)
